@@ -353,7 +353,9 @@ def inline_new_aliases(repo, ref):
             if not (isinstance(st, ast.Assign) and len(st.targets) == 1 and isinstance(st.targets[0], ast.Name)):
                 continue
             ch = _chain(st.value)
-            if ch is None or len(ch) < 2:
+            if ch is None:
+                continue
+            if len(ch) < 2 and ch[0] in ("self", "cls"):
                 continue
             stores = [n for n in walk_own(fi.node) if isinstance(n, ast.Name) and n.id == name and isinstance(n.ctx, (ast.Store, ast.Del))]
             if len(stores) != 1:
@@ -376,8 +378,18 @@ def inline_new_aliases(repo, ref):
             # the root is not rebound and no attribute of the chain is stored in this function
             root_stores = [n for n in walk_own(fi.node) if isinstance(n, ast.Name) and n.id == root and isinstance(n.ctx, (ast.Store, ast.Del))]
             if root_stores:
-                in_loop = any(isinstance(a_, (ast.For, ast.While, ast.AsyncFor)) for a_ in _ancestors(st, fi.node))
-                if in_loop or any(_pos(n) >= _pos(st) for n in root_stores):
+                def _loop_of(n):
+                    for a_ in _ancestors(n, fi.node):
+                        if isinstance(a_, (ast.For, ast.While, ast.AsyncFor)):
+                            return a_
+                    return None
+                lp = _loop_of(st)
+                # the root is rebound only before the binding, and - inside a loop - only in the same iteration of the same loop
+                if any(_pos(n) >= _pos(st) for n in root_stores if not (lp is not None and n is getattr(lp, "target", None))) \
+                        or any(_loop_of(n) is not lp and not (lp is not None and any(n is x for x in ast.walk(lp.target))) for n in root_stores if lp is not None) \
+                        or (lp is None and any(_loop_of(n) is not None for n in root_stores)):
+                    continue
+                if len(ch) == 1 and any(isinstance(getattr(n, "_parent", None), (ast.AugAssign,)) for n in root_stores):
                     continue
             if writers is None:
                 writers = _attr_writers(repo)
@@ -497,6 +509,7 @@ def _blocks(fnode):
 
 
 def _invalidate(node):
+    _GEN[0] += 1
     p = node
     while p is not None:
         if hasattr(p, "_norm_text"):
@@ -595,6 +608,7 @@ def _install(old, new):
     # keep the original operand objects' identity out of it: rules never hold nodes across Repo construction
     new._parent = old._parent
     new._respelled = True
+    _GEN[0] += 1
     _replace_child(old._parent, old, new)
     p = new._parent
     while p is not None:
@@ -669,7 +683,30 @@ def respell(repo, ref):
 # new single-use temporaries (`receiver = FragmentReceiver(...)` used once in the next statement) are folded back
 
 def _pos(n):
-    return (getattr(n, "lineno", 0), getattr(n, "col_offset", 0))
+    """document order of a node inside its function: the index of a pre-order walk (source positions are useless for code
+    that was put in place by the translation itself - it all carries the position of the statement it replaced)"""
+    top = n
+    while getattr(top, "_parent", None) is not None and not isinstance(top, (ast.FunctionDef, ast.AsyncFunctionDef, ast.Lambda, ast.Module)):
+        top = top._parent
+    key = (id(top), _GEN[0])
+    order = _ORDER.get(key)
+    if order is None:
+        order = {}
+        stack = [top]
+        while stack:
+            x = stack.pop()
+            order[id(x)] = len(order)
+            stack.extend(reversed(list(ast.iter_child_nodes(x))))
+        _ORDER.clear()
+        _ORDER[key] = order
+    if id(n) not in order:
+        _GEN[0] += 1
+        return _pos(n) if _GEN[0] < 10 ** 9 and id(n) in {id(y) for y in ast.walk(top)} else 0
+    return order[id(n)]
+
+
+_GEN = [0]
+_ORDER = {}
 
 
 def _ancestors(n, stop):
@@ -971,7 +1008,7 @@ def inline_new_helpers(repo, full_ref):
         decos = set(h.decorators)
         if decos - {"staticmethod", "classmethod"}:
             continue
-        if any(isinstance(x, (ast.Yield, ast.YieldFrom, ast.Await, ast.Global, ast.Nonlocal)) for x in ast.walk(h.node)):
+        if any(isinstance(x, (ast.YieldFrom, ast.Await, ast.Global, ast.Nonlocal)) for x in ast.walk(h.node)):
             continue
         if any(isinstance(x, (ast.FunctionDef, ast.AsyncFunctionDef, ast.ClassDef)) for x in ast.walk(h.node) if x is not h.node):
             continue
@@ -979,6 +1016,13 @@ def inline_new_helpers(repo, full_ref):
         if any(isinstance(c, ast.Call) and (norm_name(c.func) == h.name) for c in ast.walk(h.node)):
             continue
         params = [x.arg for x in a.args]
+        if any(isinstance(x, ast.Yield) for x in ast.walk(h.node)):
+            try:
+                if _inline_generator(repo, hq, h, params, decos, done):
+                    pass
+            except _Refuse:
+                pass
+            continue
         is_method = h.cls is not None and "staticmethod" not in decos
         recv_param = params[0] if is_method and params else None
         call_params = params[1:] if is_method else params
@@ -1608,3 +1652,101 @@ def _tail_duplicate(fnode, ref_locals):
             if changed:
                 break
     return n
+
+
+def _inline_generator(repo, hq, h, params, decos, done):
+    """for T in gen(args): BODY   where gen is a new generator function whose yields are plain statements:
+    the generator's body takes the place of the loop, each `yield E` becoming `T = E; BODY`"""
+    if any(isinstance(x, (ast.YieldFrom, ast.Return, ast.Await, ast.Global, ast.Nonlocal, ast.Try, ast.With)) for x in ast.walk(h.node)):
+        raise _Refuse("generator shape")
+    ys = [x for x in ast.walk(h.node) if isinstance(x, ast.Yield)]
+    if not all(isinstance(getattr(y, "_parent", None), ast.Expr) and y.value is not None for y in ys):
+        raise _Refuse("yield used as an expression")
+    is_method = h.cls is not None and "staticmethod" not in decos
+    call_params = params[1:] if is_method else params
+    sites = []
+    for q, fi in repo.funcs.items():
+        if fi.is_lambda or fi is h:
+            continue
+        for c in walk_own(fi.node):
+            if isinstance(c, ast.Name) and c.id == h.name and not (isinstance(getattr(c, "_parent", None), ast.Call) and c._parent.func is c):
+                raise _Refuse("generator referenced as a value")
+            if isinstance(c, ast.Call) and norm_name(c.func) == h.name:
+                p_ = getattr(c, "_parent", None)
+                if not (isinstance(p_, ast.For) and p_.iter is c and not p_.orelse and isinstance(p_.target, ast.Name)):
+                    raise _Refuse("generator not consumed by a plain for loop")
+                if h.cls is None and not (isinstance(c.func, ast.Name) and fi.module is h.module):
+                    raise _Refuse("receiver")
+                if h.cls is not None and not (isinstance(c.func, ast.Attribute) and isinstance(c.func.value, ast.Name) and c.func.value.id in ("self", "cls", h.cls.name)):
+                    raise _Refuse("receiver")
+                # the consumer's body must not use continue / break of the replaced loop
+                def own_jumps(stmts):
+                    for s_ in stmts:
+                        if isinstance(s_, (ast.Continue, ast.Break)):
+                            return True
+                        if isinstance(s_, (ast.For, ast.While, ast.AsyncFor)):
+                            continue
+                        for f in ("body", "orelse", "finalbody", "handlers"):
+                            sub = getattr(s_, f, None)
+                            if isinstance(sub, list) and sub:
+                                inner = [x.body for x in sub] if f == "handlers" else [sub]
+                                for b in inner:
+                                    if own_jumps(b):
+                                        return True
+                    return False
+                if own_jumps(p_.body):
+                    raise _Refuse("continue / break in the consuming loop")
+                if any(isinstance(x, ast.Starred) for x in c.args) or c.keywords or len(c.args) != len(call_params):
+                    raise _Refuse("arguments")
+                if not all(isinstance(a_, (ast.Name, ast.Constant)) for a_ in c.args):
+                    raise _Refuse("argument not simple")
+                sites.append((fi, c, p_))
+    if not sites:
+        return False
+    h_locals = {n for n, _ in _bound_names(h.node)[0]}
+    for (fi, c, loop) in sites:
+        mapping = {p_: ast.unparse(a_) for p_, a_ in zip(call_params, c.args)}
+        if is_method:
+            mapping[params[0]] = c.func.value.id
+        caller_names = {n for n, _ in _bound_names(fi.node)[0]} | set(fi.params)
+        for n in sorted(h_locals):
+            if n in caller_names and n not in mapping:
+                mapping[n] = n + "__g"
+        body_src = "\n".join(ast.unparse(s_) for s_ in loop.body)
+        tgt = loop.target.id
+
+        class _Y(ast.NodeTransformer):
+            def visit_Expr(self, node):
+                if isinstance(node.value, ast.Yield):
+                    return [ast.parse("%s = %s" % (tgt, ast.unparse(node.value.value))).body[0]] + ast.parse(body_src).body
+                return self.generic_visit(node)
+        gbody = [s_ for s_ in h.node.body if not (isinstance(s_, ast.Expr) and isinstance(s_.value, ast.Constant) and isinstance(s_.value.value, str))]
+        gbody = ast.parse("\n".join(ast.unparse(s_) for s_ in gbody)).body
+        mod = ast.Module(body=gbody, type_ignores=[])
+        mod = _SubstNames(mapping).visit(mod)      # generator locals / parameters first, the consumer's body is spliced in afterwards
+        mod = _Y().visit(mod)
+        ast.fix_missing_locations(mod)
+        fresh = ast.parse(ast.unparse(mod)).body
+        blk, idx = _block_of(loop)
+        if blk is None:
+            raise _Refuse("loop not in a block")
+        owner = loop._parent
+        for s_ in fresh:
+            for y in ast.walk(s_):
+                ast.copy_location(y, loop)
+                for ch in ast.iter_child_nodes(y):
+                    ch._parent = y
+            s_._parent = owner
+            s_._inlined_from = hq
+        blk[idx:idx + 1] = fresh
+        _invalidate(owner)
+        done.setdefault(fi.qual, []).append(h.name)
+    del repo.funcs[hq]
+    if h.cls is not None:
+        h.cls.methods.pop(h.name, None)
+        lst = repo.by_name_methods.get(h.name, [])
+        if h in lst:
+            lst.remove(h)
+    else:
+        h.module.funcs.pop(h.name, None)
+    return True
